@@ -76,7 +76,15 @@ class Prop:
                   "(called_is_registered, removed_never_called), only on channels of the active list and with the revents the "
                   "kernel reported for them in that iteration (dispatch_reported_poll, dispatch_reported_epoll); every poll is "
                   "given the constant positive time-out and an iteration with nothing reported runs no callback and changes only "
-                  "the counter (idle_blocks). The same history with the same kernel reports gives, under poll and under epoll, the "
+                  "the counter (idle_blocks). Every ready, subscribed channel is called within a bounded number of iterations however "
+                  "many are ready at once: under poll in the very iteration in which poll(2) reports it - the whole array is scanned - "
+                  "unless an operation on that very channel is scripted inside an earlier callback of the iteration "
+                  "(all_ready_called_poll); under epoll every reported channel is called in that iteration "
+                  "(all_reported_called_epoll), the array events_ starts at kInitEventListSize, never shrinks and is doubled "
+                  "(epGrowTo) exactly by an iteration whose wait filled it (evsize_growth), hence while R descriptors stay ready the "
+                  "wait after n consecutive ones reports all of them and calls every subscribed one as soon as 16 * 2^n >= R, i.e. "
+                  "within ceil(log2(R/16)) + 1 iterations (all_ready_called_epoll_bound; kInitEventListSize, epArrayFull, epGrowTo, "
+                  "epHasEvents are the generated definitions). The same history with the same kernel reports gives, under poll and under epoll, the "
                   "same ordered trace of executed/rejected operations and callbacks (channel, kind, revents, interest) and the same "
                   "watched map whenever both pollers return the same active list (same_callbacks, same_watch), and - when "
                   "operations happen only between polls - the same multiset of callbacks for ANY report order "
@@ -88,8 +96,9 @@ class Prop:
                   "of the model is tied to the real classes by a per-step differential run under both back-ends")
     level_note = ("Trusted: Lean kernel, vlib/extract.py, the hand-written parts of Model/Poller.lean as far as the differential "
                   "run exercises them, Linux epoll/poll semantics (readiness is input), std::map/std::vector. Not proved, only "
-                  "checked on the implementation by the oracle: every ready subscribed channel is served within the event-array "
-                  "doubling bound (`not-served`), completeness of the dispatch for untouched channels (`missed-callback`), no "
+                  "checked on the implementation by the oracle: that the Linux kernel behaves as the environment hypotheses of "
+                  "all_ready_called_poll / all_ready_called_epoll_bound say, so that every ready subscribed channel is served within "
+                  "the event-array doubling bound (`not-served`), completeness of the dispatch for untouched channels (`missed-callback`), no "
                   "self-wake-up (`self-wake`). same_callbacks/same_watch carry environment hypotheses (see assumptions), no "
                   "hypothesis about the code.")
     rule = ("histories over 1..300 real channels (pipes read/write end, socketpairs): enable/disable read/write, disableAll, "
@@ -106,7 +115,7 @@ class Prop:
         "vlib/extract.py (clang-14 JSON AST -> Generated/Poller.lean)",
         "vlib/gen/pollerskel.py (clang-14 JSON AST -> Generated/PollerSkel.lean: statement skeletons of the 17 modelled functions of "
         "EPollPoller.cc/PollPoller.cc/Channel.cc/EventLoop.cc; what it leaves out is listed in the generated header) and the reading of "
-        "Model/Poller.lean written down in Model/PollerSkelDecl.lean (incl. its notes A1-A4, D1); the two are proved equal "
+        "Model/Poller.lean written down in Model/PollerSkelDecl.lean (incl. its notes A1-A4); the two are proved equal "
         "(statement_order_tied)",
         "hand-written Model/Poller.lean (control flow between the extracted guards), tied by the differential run",
         "harness/poller_drv.cc, harness/loopstep.h (link-level interposition of poll, epoll_wait, epoll_ctl, eventfd, write)",
@@ -121,6 +130,13 @@ class Prop:
         "iteration both pollers return the same active list (epoll_wait lists the descriptors in the order PollPoller scans)",
         "permEnvOk (same_callbacks_unordered_partial, same_watch_unordered_partial): epEnvOk, each descriptor reported at most "
         "once, both pollers return the same channels in any order, and no operation is scripted inside a callback",
+        "pollCount <= nret (all_ready_called_poll): poll(2) returns at least the number of pollfds_ entries it marked with a "
+        "non-zero revents, so that PollPoller::fillActiveChannels does not stop its scan early",
+        "epWait / order (all_ready_called_epoll_bound): the R descriptors of rdy are in the kernel's interest list, are ready and stay "
+        "ready over the consecutive waits considered (level-triggered: what a wait did not report is still ready at the next); the "
+        "kernel may keep its ready list in any order from wait to wait (order j is a permutation of rdy - e.g. reported entries go "
+        "to the tail); each epoll_wait reports the first min(R, events_.size()) entries and returns their number; no operation is "
+        "pending inside a callback and none happens between these waits",
         "documented preconditions: remove() only with no interest, during dispatch only of the current or an inactive "
         "channel; one Channel object per descriptor; a Channel object is destroyed only when unregistered (the harness and the "
         "model reject other requests)",
@@ -722,6 +738,16 @@ class Prop:
                     t.append("op %d %s" % (c, touch))
                     t += ["peer %d write 1" % c] + (["peer %d write 1" % d] if d is not None else []) + ["iter", "iter"]
                     tails.append(t)
+        # the difference may be the size of EPollPoller's result array (`wait <size>` / `grow`): many more descriptors
+        # become ready at once, for as many iterations as the doubling bound allows (evsize_growth,
+        # all_ready_called_epoll_bound) - first, because a handful of these decide the question
+        bursts = []
+        for m in (24, 48, 96):
+            ids = list(range(fresh, fresh + m))
+            t = ["chan %d %s" % (i, "sock" if i % 2 else "pipe") for i in ids] + ["op %d enableR" % i for i in ids]
+            t += ["peer %d write 1" % i for i in ids]
+            bursts.append(t + ["iter"] * (served_bound(m + len(declared) + 1, "epoll") + 1))
+        tails = bursts + tails
         for k in range(40 if ctx.quick() else 150):
             # random continuations on the involved channels and their neighbours
             pool = list(dict.fromkeys(involved + declared[:4]))
